@@ -96,6 +96,16 @@ def build_overlay(prop, unit, native):
         outp = os.path.join(wd, "rw_" + os.path.basename(virt))
         gen(os.path.join(REPO, virt), outp)
         ov[os.path.join(REPO, virt)] = outp
+    import glob as _glob
+    for d, gen in unit.get("rewrite_globs", []):
+        for f in sorted(_glob.glob(os.path.join(REPO, d, "*.go"))):
+            rel = os.path.normpath(os.path.relpath(f, REPO))
+            base = os.path.basename(f)
+            if base.endswith("_test.go") or base.startswith("zz_") or rel in unit.get("rewrites", {}) or os.path.normpath(f) in {os.path.normpath(k) for k in ov}:
+                continue
+            outp = os.path.join(wd, "rwg_" + base)
+            if gen(f, outp) is not False:
+                ov[f] = outp
     if native:
         ov[os.path.join(REPO, "internal/vrt/vrt.go")] = os.path.join(VERIF, "harness/vrt/vrt_pkg.go.txt")
         hooked = hook_byteslice(os.path.join(REPO, "pkg/pool/byteslice/byteslice.go"), os.path.join(wd, "rw_byteslice_hooked.go"))
